@@ -34,3 +34,10 @@ chk("C05", "exhaustive node-class x slot enumeration (introspected) plus generat
     "its ref that changes the mirrored value must hit a reported dependency and update a task defined by the expression. A node class "
     "without a slot-table entry fails the check rather than being skipped.",
     TRUST, "DESIGN.md 4/C05", engine="hypothesis + enumeration")
+
+chk("C06", "all-pairs testing of generated paths and systematically derived near-misses against structural path equality",
+    "Pools of generated access paths plus derived near-misses (type confusion, item/attribute, prefix, 1-tuple, -1/-2, keys that spell the "
+    "rest of a path); every ordered pair of independently built refs is compared with structural path equality through ==, !=, hash, dict "
+    "and set membership; 10^5-key families exercise collisions of the 32-bit compiled hash; identical-structure expressions must be equal "
+    "and hash equally.",
+    TRUST, "DESIGN.md 4/C06")
